@@ -1189,9 +1189,11 @@ func (ms *loopModSet) boxedObjs(name string, o *types.Var) {
 // havocLoop replaces everything the loop body may modify by fresh symbols.
 func (v *Verifier) havocLoop(h *State, before *State, ms *loopModSet, lp *loopParts) {
 	// an arbitrary iteration starts with an arbitrary (not smaller) allocator
-	allocPre := h.alloc
+	// Heaps are NOT havocked for the objects allocated in earlier iterations: their
+	// references lie in [alloc before the loop, alloc at the head), where the pre-loop
+	// heap term is unconstrained (all heap axioms are guarded by `existed`), so it
+	// already stands for arbitrary contents; the invariant says what is known there.
 	v.bumpAlloc(h)
-	defer v.havocAllocHeaps(h, ms, allocPre)
 	for o := range ms.vars {
 		if v.boxed[o] {
 			continue
@@ -1255,6 +1257,9 @@ func (v *Verifier) havocLoop(h *State, before *State, ms *loopModSet, lp *loopPa
 		for _, e := range exprs {
 			if id, isId := e.(*ast.Ident); isId && id.Name == "#box" {
 				continue
+			}
+			if v.isLoopLocalFresh(before, e) {
+				continue // memory allocated inside the iteration: not visible at the loop head
 			}
 			b, ok := v.stableBase(before, e, ms)
 			if !ok {
@@ -1525,5 +1530,32 @@ func (v *Verifier) havocAllocHeaps(h *State, ms *loopModSet, allocPre *Term) {
 		_, vs, _ := arrSorts(cur.Sort)
 		h.assume(Forall([]*Term{r}, Implies(existed(r, allocPre), Eq(Select(nh, r), Select(cur, r))), mk("select", vs, nh, r)))
 		h.heaps[name] = nh
+	}
+}
+
+// isLoopLocalFresh: e is (a slice of) a variable declared inside the loop that only ever
+// holds memory it allocated itself.
+func (v *Verifier) isLoopLocalFresh(before *State, e ast.Expr) bool {
+	for {
+		switch x := ast.Unparen(e).(type) {
+		case *ast.SliceExpr:
+			e = x.X
+			continue
+		case *ast.Ident:
+			o, ok := v.info.ObjectOf(x).(*types.Var)
+			if !ok {
+				return false
+			}
+			for depth := 0; depth < 4; depth++ {
+				if r, has := v.sliceRoot[o]; has {
+					o = r
+				} else {
+					break
+				}
+			}
+			_, existedBefore := before.vars[o]
+			return v.freshLocal[o] && !existedBefore
+		}
+		return false
 	}
 }
